@@ -99,8 +99,15 @@ def signature(fmt, v, o):
             return "sqlite-adt-abort"
         if any(t in ("R", "RR", "RA") for t in types) and o["write"] == "ok":
             return "sqlite-record"
-        if "f" in types and o["write"] == "ok" and o["read"] in ("ok", "error"):
-            return "sqlite-float"
+        # after the writer repair (float columns hold the value) only the values the SQLite channel cannot carry remain:
+        # nan is stored as NULL and a subnormal as text that std::stof refuses (reader error), -0.0 loses its sign in
+        # the INTEGER-affinity column; any other float deviation in SQLite is a violation again
+        bad = [x for ty, x in zip(types, v["t"]) if ty == "f" and
+               ((x["k"] == "fs" and x["s"] in ("nan", "dmin")) or (x["k"] == "fv" and x["neg"] and io.text(x["m"]) == "0"))]
+        if bad and o["write"] == "ok":
+            special = any(x["k"] == "fs" for x in bad)
+            if (special and o["read"] == "error") or (not special and o["read"] == "ok" and o["cmp"] == (1, 1)):
+                return "sqlite-float-special-values"
         return None
     if any(x["k"] == "fs" and x["s"] == "dmin" for x in v["t"]) and o["write"] == "ok" and o["read"] == "error":
         return "float-denormal-unreadable"
